@@ -19,6 +19,7 @@ const (
 	stBlocked // needs the symbol at (NeedT, NeedPos)
 	stStuck   // unmodelled operation: undecided
 	stPanic   // the interpreted code panics
+	stMerged  // identical to a state already explored (only with MergeAtRange)
 )
 
 const symEND = -1
@@ -89,6 +90,11 @@ type Machine struct {
 	OnAppend  func(st *State, site ssa.Instruction, slice Val, elems []Val)
 	OnStore   func(st *State, site *ssa.Store, addr Ptr, v Val)
 	skipInit  func(fn *ssa.Function) bool
+	// MergeAtRange: before forking over the iteration orders of a map, drop the state when an
+	// identical one (canonical key, effects) has already reached the same instruction in this Run.
+	MergeAtRange bool
+	RangeCover   map[*ssa.Range]int // largest map each range instruction was interpreted on
+	rangeSeen    map[string]bool
 	AltFilter func(st *State, v Val) Val // applied to the alternative a fork takes
 	ExtGlobals map[string]Val           // values of package-level variables outside the repository (io.EOF, ...)
 	NoExactConcat bool                  // tape mode: string concatenation keeps only emptiness
@@ -365,6 +371,7 @@ func (m *Machine) get(st *State, fr *Frame, v ssa.Value) Val {
 func (m *Machine) Run(st *State) []*State {
 	var done []*State
 	work := []*State{st}
+	m.rangeSeen = map[string]bool{}
 	for len(work) > 0 {
 		s := work[len(work)-1]
 		work = work[:len(work)-1]
@@ -381,6 +388,9 @@ func (m *Machine) Run(st *State) []*State {
 		}
 		if s.Status == stStuck {
 			m.Stuck[s.Msg]++
+		}
+		if s.Status == stMerged {
+			continue
 		}
 		done = append(done, s)
 	}
@@ -848,6 +858,68 @@ func (m *Machine) step(st *State) (forks []*State) {
 		default:
 			st.stuck("lookup in %T", base)
 		}
+	case *ssa.Range:
+		base := m.get(st, fr, x.X)
+		mv, ok := base.(MapV)
+		if !ok {
+			if _, isNil := base.(nilV); isNil {
+				set(&MapIterV{Obj: -1})
+				return nil
+			}
+			st.stuck("range over %T", base)
+			return nil
+		}
+		n := len(st.Heap[mv.Obj].V.(*MapObjV).K)
+		if n > 6 {
+			st.stuck("range over a map of %d entries (permutation bound)", n)
+			return nil
+		}
+		if m.RangeCover != nil && n > m.RangeCover[x] {
+			m.RangeCover[x] = n
+		}
+		if m.MergeAtRange && n > 1 {
+			k := m.Key(st.Clone()) + "|E" + strings.Join(st.Effects, ";")
+			if m.rangeSeen[k] {
+				st.Status = stMerged
+				return nil
+			}
+			m.rangeSeen[k] = true
+		}
+		// the iteration order of a map is unspecified: fork over every permutation
+		perms := permutations(n)
+		var forks []*State
+		for i := 1; i < len(perms); i++ {
+			o := st.Clone()
+			ofr := o.top()
+			ofr.Regs[x] = &MapIterV{Obj: mv.Obj, Order: perms[i]}
+			ofr.PC++
+			o.Notes["map-order"] = true
+			forks = append(forks, o)
+		}
+		if len(perms) > 1 {
+			st.Notes["map-order"] = true
+		}
+		set(&MapIterV{Obj: mv.Obj, Order: perms[0]})
+		return forks
+	case *ssa.Next:
+		it, ok := m.get(st, fr, x.Iter).(*MapIterV)
+		if !ok || x.IsString {
+			st.stuck("next on %T", m.get(st, fr, x.Iter))
+			return nil
+		}
+		mt := x.Iter.(*ssa.Range).X.Type().Underlying().(*types.Map)
+		if it.Obj < 0 || it.Pos >= len(it.Order) {
+			set(&TupleV{E: []Val{false, zeroVal(mt.Key()), zeroVal(mt.Elem())}})
+			return nil
+		}
+		mo := st.Heap[it.Obj].V.(*MapObjV)
+		i := it.Order[it.Pos]
+		it.Pos++
+		if i >= len(mo.K) {
+			st.stuck("map modified during iteration")
+			return nil
+		}
+		set(&TupleV{E: []Val{true, cloneVal(mo.K[i]), cloneVal(mo.V[i])}})
 	case *ssa.MakeClosure:
 		f := &FuncV{Fn: x.Fn.(*ssa.Function)}
 		for _, b := range x.Bindings {
@@ -2183,4 +2255,28 @@ func (m *Machine) InitPackages(st *State, pkgs ...string) string {
 		st.Ret = nil
 	}
 	return ""
+}
+
+
+func permutations(n int) [][]int {
+	if n == 0 {
+		return [][]int{{}}
+	}
+	var out [][]int
+	var rec func(cur []int, used []bool)
+	rec = func(cur []int, used []bool) {
+		if len(cur) == n {
+			out = append(out, append([]int(nil), cur...))
+			return
+		}
+		for i := 0; i < n; i++ {
+			if !used[i] {
+				used[i] = true
+				rec(append(cur, i), used)
+				used[i] = false
+			}
+		}
+	}
+	rec(nil, make([]bool, n))
+	return out
 }
